@@ -7,6 +7,7 @@ side is Model/JsonLocate (`canUseDotNotation`, `escapeJqString`, `renderPath`, n
 import SuccinctlyVerif.Proof.JsonLocate
 import SuccinctlyVerif.Proof.JsonLocateLex
 import SuccinctlyVerif.Proof.JsonLocatePath
+import SuccinctlyVerif.Proof.JsonLocateIndex
 namespace SV.Props.C28
 open SV.Jq SV.JsonLocate
 
@@ -91,5 +92,32 @@ theorem range_eq_partial {table : List Entry} {n off : Nat} {e : Entry}
 
 example : (renderPath [.dotKey ['a'], .index 10, .bracketKey ['x', '"', ' ']]) = ".a[10][\"x\\\" \"]".toList := by
   decide
+
+
+/-! ### node selection on the real index (C05 + C06 + C07) -/
+
+/-- **Node selection = preorder node of the document.** For every valid document (`Doc` of
+`Spec/JsonSimple`) below 4 GiB and every offset inside its text, `find_node_at_offset` on the index
+`JsonIndex::build` produces (C05 reference builder, C06 `index_structure`) returns the BP position
+of the open parenthesis of the k-th node in preorder, where k+1 is the number of node first bytes
+at positions ≤ offset (C07 `cursor_at_offset_eq`) – `None` before the first node. `at_offset` is
+this same function (`JsonCursor::cursor_at_offset`). -/
+theorem find_node_at_offset_eq (d : SV.JsonText.Doc) (off : Nat) (h : off < d.text.length)
+    (hsmall : d.text.length < SV.JsonIb.U32) :
+    (Idx.build d.text).findNodeAtOffset off =
+      (if SV.rankB true (SV.JsonNav.toksStdIb d.toks) (off + 1) = 0 then none
+       else SV.selectB true (SV.JsonNav.treeBp d.value)
+         (SV.rankB true (SV.JsonNav.toksStdIb d.toks) (off + 1) - 1)) :=
+  findNodeAtOffset_doc d off h hsmall
+
+/-- … and the text position of the node found is the last node first byte at or before the offset:
+the start of the reported byte range. -/
+theorem located_start_eq (d : SV.JsonText.Doc) (off p : Nat) (h : off < d.text.length)
+    (hsmall : d.text.length < SV.JsonIb.U32)
+    (hp : (Idx.build d.text).findNodeAtOffset off = some p) :
+    (Idx.build d.text).textPosition p =
+      (SV.selectB true (SV.JsonNav.toksStdIb d.toks)
+        (SV.rankB true (SV.JsonNav.toksStdIb d.toks) (off + 1) - 1)).filter (· < d.text.length) :=
+  textPosition_findNode_doc d off p h hsmall hp
 
 end SV.Props.C28
